@@ -469,7 +469,28 @@ pub fn replay(behaviours: &str, k: usize, random_maps: usize, trace: &mut Ndjson
                 out.violate("generate-report-panic", "generate_report panicked".into(), json!({"v": findings_json(fv), "o": findings_json(fo), "q": findings_json(fq)}));
                 continue;
             }
+            let clean_text = std::fs::read_to_string("solstat_report.md").unwrap_or_default();
+            // the same findings once more, over a LONGER report left by an earlier run: the file must be replaced
+            let mut stale = clean_text.clone();
+            stale.push_str(&clean_text);
+            for k in 0..40 {
+                stale.push_str(&format!("- Previous.sol:{}\n", k + 1));
+            }
+            let _ = std::fs::write("solstat_report.md", &stale);
+            let (a, b, c) = (vul_map(fv), opt_map(fo), qa_map(fq));
+            if guarded(move || generate_report(a, b, c)).is_err() {
+                out.violate("generate-report-panic", "generate_report panicked over an existing report".into(), json!({"v": findings_json(fv), "o": findings_json(fo), "q": findings_json(fq)}));
+                continue;
+            }
             let text = std::fs::read_to_string("solstat_report.md").unwrap_or_default();
+            if text != clean_text {
+                out.violate(
+                    "nondeterministic:file:previous-report",
+                    format!("generate_report over an existing longer report leaves {} bytes, {} bytes from a clean directory", text.len(), clean_text.len()),
+                    json!({"v": findings_json(fv), "o": findings_json(fo), "q": findings_json(fq)}),
+                );
+            }
+            // (the file as left by the second run is the one that is read back below)
             let parts = reader.parse_file(&text);
             out.evaluations += 1;
             let mut present = serde_json::Map::new();
